@@ -250,6 +250,21 @@ func (s LWs) Close() (err error) {
 	return
 }
 
+// SetLevel implements LevelSettable by forwarding the level to every
+// member which is LevelSettable, either itself or as the plain io.Writer
+// wrapped by Add*/Set*. printOut calls it right before Write.
+func (s LWs) SetLevel(lvl Level) {
+	for _, w := range s {
+		if x, ok := w.(LevelSettable); ok {
+			x.SetLevel(lvl)
+		} else if xl, ok := w.(*logwr); ok {
+			if x, ok := xl.Writer.(LevelSettable); ok {
+				x.SetLevel(lvl)
+			}
+		}
+	}
+}
+
 func (s LWs) Write(p []byte) (n int, err error) {
 	// TO/DO implement me
 	// /panic("implement me")
